@@ -92,6 +92,11 @@ def check_dispatcher(ctx, rule: str, wakeups=True, consumers=True, reconnect=Non
     # every thread start() creates is started, with its stop flag lowered first
     for field, target, st in creations:
         node = next(n for n in scfg.real_nodes() if n.ast is st)
+        # ... and is created whenever no live one exists: unconditionally, or under `none or not alive`
+        about = {(t, p) for t, p in cnd.facts(scfg, node, fn=start.node) if field in t}
+        ok = about in (set(), {(f"ALL[+{field}.is_alive();-{field} is None]", False)}, {(f"{field}.is_alive()", False), (f"{field} is None", False)}, {(f"{field}.is_alive()", False)})
+        ctx.ob(rule, "ProtocolDispatcher.start", ok, f"thread {field} is (re)created whenever none is alive" if ok else
+               f"thread {field} (target {target}) is created only under {cnd.show(about)}: after stop() ended the previous thread nothing runs the {target.split('.')[-1] if target else 'target'} on the next connection", key="recreated " + field, where=start.where)
         starts = [n for n in scfg.real_nodes() if any(c == f"{field}.start" for c in n.call_names())]
         ok = bool(starts) and not scfg.path_exists(node, scfg.exit, avoid=starts, no_exc=True)
         ctx.ob(rule, "ProtocolDispatcher.start", ok, f"thread {field} is started on every path that creates it" if ok else
